@@ -43,6 +43,24 @@ func VH_C10_C16_ParamListVsGrammar() {
 			vh.Assert(present && refItemEq(v, q.val), "same parameter value")
 		}
 	}
+	// parse(serialize(parse(s))) == parse(s): every accepted input is serialisable and re-parses to the same value
+	ser, serr := got.String()
+	vh.Assert(serr == nil, "an accepted value can be serialised")
+	if serr != nil {
+		return
+	}
+	again, aerr := ParseParameterisedList(ser)
+	vh.Assert(aerr == nil && len(again) == len(got), "parse-serialise-parse accepts")
+	if aerr != nil || len(again) != len(got) {
+		return
+	}
+	for i := range want {
+		vh.Assert(string(again[i].Label) == want[i].label && len(again[i].Params) == len(want[i].params), "parse-serialise-parse keeps labels and parameter counts")
+		for _, q := range want[i].params {
+			v, present := again[i].Params[Key(q.key)]
+			vh.Assert(present && refItemEq(v, q.val), "parse-serialise-parse keeps parameter values")
+		}
+	}
 }
 
 // VH_C10_C16_ListOfListsVsGrammar: same for ParseListOfLists.
